@@ -242,9 +242,21 @@ func c17RunAssembly(r *h.Result, sc *fakes.Script, q storage.Querier, rows []c17
 			}
 			sort.Slice(fps, func(i, j int) bool { return fps[i] < fps[j] })
 			planned := c17InList(qs, "fingerprint IN (")
+			lo, hi := c17DateBound(qs, "(date) >= ('"), c17DateBound(qs, "(date) <= ('")
 			for _, fp := range fps {
 				if !planned[strconv.FormatUint(fp, 10)] {
 					continue // only planned fingerprints are fetched
+				}
+				// time_series holds a row of the series on the UTC days of its samples only (C04): the request must
+				// admit one of them
+				onDay := false
+				for _, rw := range rows {
+					if d := c17DateOfMs(rw.Ts); rw.Fp == fp && lo != "" && hi != "" && lo <= d && d <= hi {
+						onDay = true
+					}
+				}
+				if !onDay {
+					continue
 				}
 				var l [][]interface{}
 				for _, kv := range lbls[fp] {
